@@ -1,0 +1,375 @@
+//go:build verif
+
+package redisemu
+
+// Verification hooks. Compiled only with `-tags verif`; they export thin
+// wrappers around unexported code so that an external harness can drive the
+// emulator in-process. Nothing here changes behaviour of existing code.
+
+import (
+	"context"
+	"fmt"
+	"math"
+	"sort"
+	"strings"
+	"sync/atomic"
+	"time"
+
+	"github.com/jimsnab/go-lane"
+)
+
+type (
+	// VerifStore is one emulator state (a dataStoreSet plus a dispatcher)
+	VerifStore struct {
+		l    lane.Lane
+		dss  *dataStoreSet
+		disp *cmdDispatcher
+	}
+
+	// VerifClient is one in-process connection to a VerifStore
+	VerifClient struct {
+		tc *testClient
+	}
+
+	// VerifDict wraps a redisDict
+	VerifDict struct {
+		d *redisDict
+	}
+)
+
+var verifPort int32 = 40000
+
+func verifLoadTables(l lane.Lane) (redisCommands, *redisInfoTable) {
+	rd := newRespDeserializerFromResource(l, cmdSpec)
+	value, _, valid := rd.deserializeNext()
+	if !valid {
+		panic("invalid cmdSpec definition content")
+	}
+	cmds := redisCommands{}
+	if valid = cmds.respDeserialize(l, value); !valid {
+		panic("failed to deserialize command definitions")
+	}
+	ri := newRespDeserializerFromResource(l, cmdInfoSpec)
+	value, _, valid = ri.deserializeNext()
+	if !valid {
+		panic("invalid cmdInfoSpec definition content")
+	}
+	info := newRedisInfoTable()
+	if valid = info.respDeserialize(l, value); !valid {
+		panic("failed to deserialize command info definitions")
+	}
+	return cmds, info
+}
+
+// VerifNewStore makes a fresh emulator state; basePath "" means no persistence
+func VerifNewStore(basePath string) *VerifStore {
+	l := lane.NewNullLane(context.Background())
+	cmds, info := verifLoadTables(l)
+	port := atomic.AddInt32(&verifPort, 1)
+	vs := &VerifStore{l: l, dss: newDataStoreSet(l, basePath, nil)}
+	vs.disp = newCmdDispatcher(int(port), "127.0.0.1", cmds, info, vs.dss)
+	return vs
+}
+
+// Save runs what the periodic saver runs
+func (vs *VerifStore) Save() error {
+	return vs.dss.save(vs.l)
+}
+
+// NewClient makes a new in-process connection
+func (vs *VerifStore) NewClient() *VerifClient {
+	port := atomic.AddInt32(&verifPort, 1)
+	tc := &testClient{
+		started: time.Now(),
+		dss:     vs.dss,
+		disp:    vs.disp,
+		addr:    fmt.Sprintf("1.2.3.4:%d", port),
+		laddr:   "127.0.0.1:6379",
+	}
+	tc.cs = newClientState(vs.l, tc, vs.disp)
+	return &VerifClient{tc: tc}
+}
+
+func (vc *VerifClient) ID() int64 { return vc.tc.cs.id }
+
+func (vc *VerifClient) Close() { vc.tc.Close() }
+
+// Terminate is what a socket loss does to the connection state
+func (vc *VerifClient) Terminate() { vc.tc.Terminate() }
+
+func (vc *VerifClient) IsBlocked() bool { return vc.tc.cs.isBlocked() }
+
+// Dispatch runs one command given as an array of bulk strings and returns the
+// serialized reply. A panic in the handler is returned as text.
+func (vc *VerifClient) Dispatch(argv [][]byte) (reply []byte, panicText string) {
+	a := make(respArray, 0, len(argv))
+	for _, arg := range argv {
+		a = append(a, respValue{data: respBulkString(arg)})
+	}
+	return vc.DispatchValue(respValue{data: a})
+}
+
+func (vc *VerifClient) DispatchValue(v respValue) (reply []byte, panicText string) {
+	defer func() {
+		if r := recover(); r != nil {
+			panicText = fmt.Sprintf("%v", r)
+			if panicText == "" {
+				panicText = "panic"
+			}
+		}
+	}()
+	out := vc.tc.cs.dispatch(v)
+	reply = out.serialize()
+	return
+}
+
+// DispatchBytes parses one RESP value from raw bytes (as the socket loop does)
+// and dispatches it. consumed == 0 means the parser did not accept the input.
+func (vc *VerifClient) DispatchBytes(input []byte) (reply []byte, consumed int, panicText string) {
+	var v respValue
+	func() {
+		defer func() {
+			if r := recover(); r != nil {
+				panicText = fmt.Sprintf("parse: %v", r)
+			}
+		}()
+		rd := newRespDeserializer(lane.NewNullLane(context.Background()), input)
+		val, length, valid := rd.deserializeNext()
+		if valid {
+			v = val
+			consumed = length
+		}
+	}()
+	if panicText != "" || consumed == 0 {
+		return
+	}
+	reply, panicText = vc.DispatchValue(v)
+	return
+}
+
+// VerifParse runs the request parser over raw bytes; canon is the value
+// re-serialized (empty when invalid).
+func VerifParse(input []byte) (valid bool, length int, canon []byte, panicText string) {
+	defer func() {
+		if r := recover(); r != nil {
+			panicText = fmt.Sprintf("%v", r)
+			valid = false
+		}
+	}()
+	rd := newRespDeserializer(lane.NewNullLane(context.Background()), input)
+	v, n, ok := rd.deserializeNext()
+	if !ok {
+		return
+	}
+	valid = true
+	length = n
+	canon = v.serialize()
+	return
+}
+
+// VerifDown parses one RESP3 value and returns the serialized RESP2 down-conversion
+func VerifDown(input []byte) (out []byte, ok bool, panicText string) {
+	defer func() {
+		if r := recover(); r != nil {
+			panicText = fmt.Sprintf("%v", r)
+			ok = false
+		}
+	}()
+	rd := newRespDeserializer(lane.NewNullLane(context.Background()), input)
+	v, _, valid := rd.deserializeNext()
+	if !valid {
+		return
+	}
+	d := resp3To2(v)
+	out = d.serialize()
+	ok = true
+	return
+}
+
+func VerifGlob(pattern, candidate string) bool {
+	return redisGlob([]rune(pattern), []rune(candidate))
+}
+
+func VerifSipHash(s string) uint64 { return calcSipHash(s) }
+
+func VerifExtractBitfield(b []byte, start, end int) int64 { return extractBitfield(b, start, end) }
+
+func VerifSetBitfield(b []byte, start, width int, value int64) []byte {
+	c := make([]byte, len(b))
+	copy(c, b)
+	setBitfield(c, start, width, value)
+	return c
+}
+
+func VerifSignExtend(v int64, bits int) int64 { return signExtend(v, bits) }
+
+func VerifIsSignedSumOverflow(a, b int64, bits int) bool { return isSignedSumOverflow(a, b, bits) }
+
+func VerifIsUnsignedOverflow(v int64, bits int) bool { return isUnsignedOverflow(v, bits) }
+
+func VerifSaturate(signed bool, v int64, bits int) int64 { return saturateValue(signed, v, bits) }
+
+func VerifFindBit(b []byte, start, end, width int, bit, noEnd bool) int {
+	return findBit(b, start, end, width, bit, noEnd)
+}
+
+func VerifCountSetBitRange(b []byte, start, end int) int { return countSetBitRange(b, start, end) }
+
+func VerifNewDict() *VerifDict { return &VerifDict{d: newRedisDict()} }
+
+func (vd *VerifDict) Store(key string) { vd.d.store(key, struct{}{}) }
+
+func (vd *VerifDict) Remove(key string) bool { return vd.d.remove(key) }
+
+func (vd *VerifDict) Has(key string) bool { _, ok := vd.d.get(key); return ok }
+
+func (vd *VerifDict) Count() int { return vd.d.count }
+
+// Buckets lists the table: "" for an empty bucket
+func (vd *VerifDict) Buckets() (keys []string, used []bool) {
+	keys = make([]string, len(vd.d.buckets))
+	used = make([]bool, len(vd.d.buckets))
+	for i, item := range vd.d.buckets {
+		if item != nil {
+			keys[i] = item.key
+			used[i] = true
+		}
+	}
+	return
+}
+
+// Scan runs one SCAN step over the dict
+func (vd *VerifDict) Scan(cursor uint32, count int) (next string, keys []string) {
+	dsc := &dataStoreCommand{}
+	out := dsc.dictScanUnlocked(vd.d, cursor, "", count, func(item *redisDictItem) any { return item })
+	a := out.data.(respArray)
+	next, _ = a[0].toString()
+	for _, k := range a[1].data.(respArray) {
+		s, _ := k.toString()
+		keys = append(keys, s)
+	}
+	return
+}
+
+// Dump renders the complete content of every database in a canonical text
+// form: one line per key, sorted. Expired-but-stored keys are included and
+// flagged by their deadline. Format:
+//
+//	db <n> dirty=<0|1> nextid=<n>
+//	<hexkey> <type> id=<id> exp=<unix ns or -1> <payload>
+func (vs *VerifStore) Dump() string {
+	var sb strings.Builder
+	vs.dss.mu.Lock()
+	idx := make([]int, 0, len(vs.dss.dbs))
+	for i := range vs.dss.dbs {
+		idx = append(idx, i)
+	}
+	sort.Ints(idx)
+	dbs := make([]*dataStore, 0, len(idx))
+	for _, i := range idx {
+		dbs = append(dbs, vs.dss.dbs[i])
+	}
+	vs.dss.mu.Unlock()
+
+	for n, ds := range dbs {
+		ds.mu.Lock()
+		dirty := 0
+		if ds.data.dirty {
+			dirty = 1
+		}
+		sb.WriteString(fmt.Sprintf("db %d dirty=%d nextid=%d count=%d\n", idx[n], dirty, ds.dataObjectNumber, ds.data.count))
+		lines := []string{}
+		for _, item := range ds.data.buckets {
+			if item == nil {
+				continue
+			}
+			sk := item.value.(*storeKey)
+			exp := int64(-1)
+			if sk.expiresAt.Before(maxTime) {
+				if sk.expiresAt.Before(minTime.Add(time.Hour)) {
+					exp = 0
+				} else {
+					exp = sk.expiresAt.UnixNano()
+				}
+			}
+			lines = append(lines, fmt.Sprintf("%x %s id=%d exp=%d %s", item.key, storeKeyType(sk.flags), sk.id, exp, verifPayload(sk)))
+		}
+		sort.Strings(lines)
+		for _, line := range lines {
+			sb.WriteString(line)
+			sb.WriteString("\n")
+		}
+		ds.mu.Unlock()
+	}
+	return sb.String()
+}
+
+func verifPayload(sk *storeKey) (text string) {
+	defer func() {
+		if r := recover(); r != nil {
+			text = fmt.Sprintf("corrupt(%v)", r)
+		}
+	}()
+	switch {
+	case flagHasOne(sk.flags, FLAG_KEY_TYPE_STRING):
+		return fmt.Sprintf("s:%x", sk.payload.([]byte))
+	case flagHasOne(sk.flags, FLAG_KEY_TYPE_LIST):
+		list := sk.payload.(*storeList)
+		parts := []string{}
+		for p := list.head; p != nil; p = p.next {
+			parts = append(parts, fmt.Sprintf("%x", p.element))
+		}
+		// walk backwards too: the two directions and the count must agree
+		back := []string{}
+		for p := list.tail; p != nil; p = p.prev {
+			back = append(back, fmt.Sprintf("%x", p.element))
+		}
+		ok := len(back) == len(parts) && list.count == len(parts)
+		for i := range parts {
+			if !ok {
+				break
+			}
+			if parts[i] != back[len(back)-1-i] {
+				ok = false
+			}
+		}
+		if !ok {
+			return fmt.Sprintf("l:INCONSISTENT count=%d fwd=%v back=%v", list.count, parts, back)
+		}
+		return "l:" + strings.Join(parts, ",")
+	case flagHasOne(sk.flags, FLAG_KEY_TYPE_HASH_TABLE):
+		d := sk.payload.(*redisDict)
+		parts := []string{}
+		for it := d.createIterator(); it.next(); {
+			parts = append(parts, fmt.Sprintf("%x=%x", it.key, it.value.(string)))
+		}
+		sort.Strings(parts)
+		if d.count != len(parts) {
+			return fmt.Sprintf("h:INCONSISTENT count=%d %v", d.count, parts)
+		}
+		return "h:" + strings.Join(parts, ",")
+	case flagHasOne(sk.flags, FLAG_KEY_TYPE_SET):
+		d := sk.payload.(*redisDict)
+		parts := []string{}
+		for it := d.createIterator(); it.next(); {
+			parts = append(parts, fmt.Sprintf("%x", it.key))
+		}
+		sort.Strings(parts)
+		if d.count != len(parts) {
+			return fmt.Sprintf("z:INCONSISTENT count=%d %v", d.count, parts)
+		}
+		return "z:" + strings.Join(parts, ",")
+	}
+	return "?"
+}
+
+// VerifFormatFloat is the formatting rule the emulator uses for doubles
+func VerifFormatFloat(f float64) string {
+	if math.IsInf(f, 1) {
+		return "inf"
+	}
+	if math.IsInf(f, -1) {
+		return "-inf"
+	}
+	return fmt.Sprintf("%v", respDouble(f))
+}
